@@ -50,7 +50,7 @@ import (
 func init() { register("C04", checkC04) }
 
 func checkC04(ctx *Ctx, r *Report, tier string) {
-	r.Explain = "The ray-crossing rule of the polygon SDF is decided exhaustively over the finite sign/order domain it depends on (orderings of the two endpoint heights and the query height, sign of the side test); the quadtree's child selection is decided for every sign of the point relative to the split lines and cross-checked with the half-open edge ownership of the segment clipping; the fast and the brute-force paths are shown to share kernels and sign rule. Distances (clipping tolerance, box-distance pruning) are numerical and not decided."
+	r.Explain = "The ray-crossing rule of the polygon SDF is decided exhaustively over the finite sign/order domain it depends on (orderings of the two endpoint heights and the query height, sign of the side test); the quadtree's child selection is decided for every sign of the point relative to the split lines and cross-checked with the half-open edge ownership of the segment clipping; the fast and the brute-force paths are shown to share kernels and sign rule. Distances (clipping tolerance, box-distance pruning) are numerical and not decided. The quadtree child boxes tile their parent bit for bit, clipped pieces end in the segment's own end points, every segment a box can own reaches the clipper, line parameters an ulp apart are merged, the distance search is cut short only at distance zero and every segment of a leaf is kept."
 	r.Exhaust = true
 	r.Trusted = []string{"go/types", "go/ssa", "sdfxlint gated symbolic evaluator"}
 	r.Assume = []string{"polygons are simple and closed"}
